@@ -521,6 +521,15 @@ func (l *Layout) Files(j *Journal) map[string]string {
 	for f := 1; f < nf; f++ {
 		p := l.Parent[f]
 		rel := relPath(path.Dir(l.Names[p]), l.Names[f])
+		// the same file can be named in several ways
+		switch (f*7 + len(l.Order)) % 6 {
+		case 0:
+			rel = "./" + rel
+		case 1:
+			if !strings.HasPrefix(rel, "..") {
+				rel = "x/../" + rel
+			}
+		}
 		fmt.Fprintf(&bufs[p], "include \"%s\"\n", rel)
 	}
 	for f := 0; f < nf; f++ {
